@@ -149,15 +149,179 @@ def field_value(form, name, word):
     return v, total
 
 
-def template_check(form, word, expect):
+def field_copies(form, name, word):
+    """A field that occurs several times with its full width (cinc: Rn|..|Rn, mov v: Vn|..|Vn) -> list of the copies."""
+    parts = [p for p in form["template"] if p.get("field") == name and p["from"] < 0 and not p["quote"]]
+    decl = form["fields"].get(name, {}).get("bits", 0)
+    if len(parts) > 1 and all(p["size"] == decl for p in parts):
+        return [(word >> p["lo"]) & ((1 << p["size"]) - 1) for p in parts], decl
+    return None, 0
+
+
+def template_check(form, word, expect, only_known_fields=False):
     """Returns (ok, reason).  expect: [(field, value)]"""
     mask, val = template_masks(form)
     if (word & mask) != val:
         return False, "literal bits: word & %08x = %08x, template wants %08x" % (mask, word & mask, val)
     for name, want in expect:
+        copies, width = field_copies(form, name, word)
+        if copies is not None:
+            for got in copies:
+                if got != (want & ((1 << width) - 1)) or want >= (1 << width):
+                    return False, "field %s = %d, requested %d" % (name, got, want)
+            continue
         got, width = field_value(form, name, word)
         if got is None:
+            if only_known_fields:
+                continue
             continue
         if got != (want & ((1 << width) - 1)) or want >= (1 << width):
             return False, "field %s = %d, requested %d" % (name, got, want)
     return True, ""
+
+
+# ---------------------------------------------------------------------------------------------------------------------
+# MOV (immediate) is an alias with several legal encodings (MOVZ / MOVN / ORR-immediate, 32- or 64-bit): compare by value
+# ---------------------------------------------------------------------------------------------------------------------
+
+def _ror(x, r, n):
+    r %= n
+    return ((x >> r) | (x << (n - r))) & ((1 << n) - 1)
+
+
+def decode_bit_masks(n, imms, immr, size):
+    """Arm ARM DecodeBitMasks (wmask only); None for reserved values."""
+    v = (n << 6) | (~imms & 0x3F)
+    if v == 0:
+        return None
+    length = v.bit_length() - 1
+    if length < 1 or (1 << length) > size:
+        return None
+    levels = (1 << length) - 1
+    s = imms & levels
+    r = immr & levels
+    if s == levels:
+        return None
+    esize = 1 << length
+    welem = (1 << (s + 1)) - 1
+    elem = _ror(welem, r, esize)
+    out = 0
+    for i in range(size // esize):
+        out |= elem << (i * esize)
+    return out
+
+
+def mov_imm_effect(word):
+    """(kind, rd, value written to the X register) if `word` is MOVZ / MOVN / ORR Rd, ZR, #imm; else None.
+    kind 'wide' (MOVZ/MOVN: Rd=31 is ZR) or 'orr' (Rd=31 is SP)."""
+    sf = word >> 31
+    size = 64 if sf else 32
+    opc = (word >> 29) & 3
+    rd = word & 31
+    if (word >> 23) & 0x3F == 0b100101 and opc in (0, 2):
+        hw = (word >> 21) & 3
+        if not sf and hw > 1:
+            return None
+        v = ((word >> 5) & 0xFFFF) << (16 * hw)
+        if opc == 0:
+            v = ~v & ((1 << size) - 1)
+        return "wide", rd, v
+    if (word >> 23) & 0x3F == 0b100100 and opc == 1 and ((word >> 5) & 31) == 31:
+        n = (word >> 22) & 1
+        if not sf and n:
+            return None
+        v = decode_bit_masks(n, (word >> 10) & 0x3F, (word >> 16) & 0x3F, size)
+        if v is None:
+            return None
+        return "orr", rd, v
+    return None
+
+
+# ---------------------------------------------------------------------------------------------------------------------
+# AdvSIMD modified immediate (MOVI / MVNI / ORR / BIC vector immediate): several encodings give the same vector constant,
+# so these are compared by the constant (Arm ARM AdvSIMDExpandImm)
+# ---------------------------------------------------------------------------------------------------------------------
+
+def _rep(v, esize):
+    out = 0
+    for i in range(64 // esize):
+        out |= (v & ((1 << esize) - 1)) << (i * esize)
+    return out
+
+
+def adv_simd_expand_imm(op, cmode, imm8):
+    """64-bit pattern, or None for the FMOV encodings (cmode 1111)."""
+    c = cmode >> 1
+    if c == 0:
+        return _rep(imm8, 32)
+    if c == 1:
+        return _rep(imm8 << 8, 32)
+    if c == 2:
+        return _rep(imm8 << 16, 32)
+    if c == 3:
+        return _rep(imm8 << 24, 32)
+    if c == 4:
+        return _rep(imm8, 16)
+    if c == 5:
+        return _rep(imm8 << 8, 16)
+    if c == 6:
+        return _rep((imm8 << 8) | 0xFF, 32) if (cmode & 1) == 0 else _rep((imm8 << 16) | 0xFFFF, 32)
+    if (cmode & 1) == 0:
+        if op == 0:
+            return _rep(imm8, 8)
+        v = 0
+        for i in range(8):
+            if (imm8 >> i) & 1:
+                v |= 0xFF << (8 * i)
+        return v
+    return None
+
+
+def modimm_effect(word):
+    """(class, rd, q, 64-bit pattern written / or-ed / and-not-ed per 64-bit half) for the AdvSIMD modified-immediate
+    group, class in 'mov' (MOVI and MVNI: pattern is the final constant), 'orr', 'bic'; None otherwise."""
+    if (word & 0x9FF80C00) != 0x0F000400:
+        return None
+    q = (word >> 30) & 1
+    op = (word >> 29) & 1
+    cmode = (word >> 12) & 15
+    imm8 = (((word >> 16) & 7) << 5) | ((word >> 5) & 31)
+    rd = word & 31
+    pat = adv_simd_expand_imm(op, cmode, imm8)
+    if pat is None:
+        return None
+    if cmode < 12 and (cmode & 1):
+        return ("bic" if op else "orr"), rd, q, pat
+    if cmode == 14 and op == 1:
+        return "mov", rd, q, pat                      # MOVI 64-bit byte mask (Q=0: scalar Dd, Q=1: .2D)
+    if cmode == 15:
+        return None
+    if op:
+        pat = ~pat & ((1 << 64) - 1)                   # MVNI
+    return "mov", rd, q, pat
+
+
+_EXPRESSIBLE = {}
+
+
+def modimm_expressible(cls):
+    s = _EXPRESSIBLE.get(cls)
+    if s is None:
+        s = set()
+        for op in (0, 1):
+            for cmode in range(15):
+                is_logic = cmode < 12 and (cmode & 1)
+                if cls == "mov":
+                    if is_logic:
+                        continue
+                elif not is_logic or (cls == "orr") != (op == 0):
+                    continue
+                for imm8 in range(256):
+                    pat = adv_simd_expand_imm(op, cmode, imm8)
+                    if pat is None:
+                        continue
+                    if cls == "mov" and op and not (cmode == 14):
+                        pat = ~pat & ((1 << 64) - 1)
+                    s.add(pat)
+        _EXPRESSIBLE[cls] = s
+    return s
